@@ -34,6 +34,11 @@ def make_est(k):
         return artlib.ART2A(rho=float(k["rho"]), alpha=float(k["alpha"]), beta=float(k["beta"]))
     if kind == "Hyper":
         return artlib.HypersphereART(rho=float(k["rho"]), alpha=float(k["alpha"]), beta=float(k["beta"]), r_hat=float(k["r_hat"]))
+    if kind == "DV":                     # DualVigilanceART over a base kernel (nesting oracles)
+        return artlib.DualVigilanceART(make_est(k["base"]), rho_lower_bound=float(k["lb"]))
+    if kind == "Fusion":                 # FusionART over several kernels (nesting oracles)
+        return artlib.FusionART([make_est(m) for m in k["mods"]], gamma_values=[float(g) for g in k["gammas"]],
+                                channel_dims=[int(d) for d in k["dims"]])
     if kind.startswith("K:"):            # any of the eight modules with float hyper-parameters (implementation-side oracles only)
         import kernfam
         return kernfam.make(kind[2:], k["p"])
